@@ -1,6 +1,8 @@
 import ScVerif.Base.Line
 import ScVerif.C07.Flat
 import ScVerif.C07.Rim
+import ScVerif.C07.Events
+import ScVerif.C07.Rim3
 /-!
 Driver handler for C07 (stateful).  One op per line; the answer lists every message that crossed
 the boundary in this op by its contents; `audit` prints the current contents of every published
@@ -12,6 +14,9 @@ reference (crossing order) and of every caller-owned message.
   cupd <id> <k> <umask> <resetmask> <before> <after> <expect|-> <flags>   cdel <id> <expect|-> <flags>
   cget <id> <rmask>   clist <rmask>   cpull <rmask> <uo>   cpullid <id> <rmask> <uo>   cclose <i>
   audit
+  ev reset | ev sub <lossy> <mask> | ev send <ADD|UPDATE|REMOVE|REPLACE> <id> <old|-> <new|-> | ev audit
+     (event objects, Events.lean: after a send every backpressure subscriber forwards, every lossy one merges in;
+      the answer lists, per backpressure subscriber, `#<canonical event ref>:<event>` of what its consumer received)
 
 msg = `a,b,c,d`; mask = `-` (nil) | `0` (empty) | letters of `abcd`; callbacks: `-` | `add:<f>` | `set:<f>:<n>`;
 flags: letters of `c` (create if absent) `x` (expect absent) `m` (allow missing) or `-`.
@@ -103,11 +108,16 @@ def initState (w : Option FMask) (iv : Option Msg) (im : Nat → Nat) : St Msg F
     -- WithInitialValue stores the given message itself; it counts as published from the start
     { St.init w (fun _ => Msg.zero) with heap := Heap.set (fun _ => Msg.zero) 0 m, next := 1, val := some 0, pub := [0], idmap := im }
 
-abbrev DrvState := St Msg FMask
+abbrev CoreState := St Msg FMask
 
-def DrvState.start : DrvState := initState none none id
+/-- the driver's state: the core heap model and the event-object model (independent op families) -/
+structure DrvState where
+  core : CoreState
+  ev : Events.DrvEv := {}
 
-def handleCore (s : DrvState) (toks : List String) : DrvState × String :=
+def DrvState.start : DrvState := { core := initState none none id }
+
+def handleCore (s : CoreState) (toks : List String) : CoreState × String :=
   match toks with
   | ["init", w, iv, im] =>
     match parseMask? w, parseOptMsg? iv, parseIdMap? im with
@@ -123,7 +133,9 @@ def handleCore (s : DrvState) (toks : List String) : DrvState × String :=
 
 def handle (s : DrvState) (toks : List String) : DrvState × String :=
   match toks with
+  | "rim" :: "mode" :: rest => (s, Rim3.handleMode rest)
   | "rim" :: rest => (s, handleRim rest)
-  | _ => handleCore s toks
+  | "ev" :: rest => let (e, a) := Events.handleEv s.ev rest; ({ s with ev := e }, a)
+  | _ => let (c, a) := handleCore s.core toks; ({ s with core := c }, a)
 
 end ScVerif.C07
